@@ -86,4 +86,13 @@ def ufuncVector (op : Rat → Rat → Rat) (s : Spectrum) (v : List Rat) : Excep
   else if v.length = 1 then .ok ⟨s.wave, s.value.map (op · v.head!)⟩
   else .error .valueError
 
+/-- meaning of the arithmetic a Spectrum operator ends in (`Gen.ArithOp`, regenerated from `__add__`/`add`/… of the source) on
+exact rationals; `power` has no rational model (irrational values) -/
+def arithFn : Gen.ArithOp → Option (Rat → Rat → Rat)
+  | .add => some (· + ·)
+  | .subtract => some (· - ·)
+  | .multiply => some (· * ·)
+  | .divide => some (· / ·)
+  | .power => none
+
 end Lentil.Spec
